@@ -537,6 +537,32 @@ def r16_12(run, model):
                        "the impl is checked against the first definition, the Go calls the undeclared _goml_trait_impl_Shape_Square_name")
 
 
+def r16_13(run, model):
+    run.rule("R16.13", "an inherent impl is accepted only for a type of the package it is written in, whatever its form: in "
+                       "define_inherent_impl the rejecting test `!is_local_nominal_type(<current package>, <implementing type>)` is not nested "
+                       "in a branch that depends on the shape of the impl (generic or not) and comes before the impl key is built")
+    d = model.fn("define_inherent_impl", TL)
+    par = S.Parents(d.body)
+    tests = []
+    for iff in S.find(d.body, "If"):
+        calls = [c for c in S.walk(iff["cond"]) if c["k"] == "Call" and S.callee_name(c) == "is_local_nominal_type"]
+        if calls and any(x["k"] == "Return" for x in S.walk(iff["then"])):
+            tests.append((iff, calls[0]))
+    keys = [l for l in S.find(d.body, "Local") if any(st["k"] in ("Call", "Struct", "Path") and "InherentImplKey" in (st.get("segs") or S.callee_segs(st) or [])
+                                                       for st in S.walk(l.get("init") or {"k": "None"}))]
+    if not keys:
+        raise AnalysisIncomplete("define_inherent_impl: construction of the impl key not found")
+    first_key = min((l["sp"][0], l["sp"][1]) for l in keys)
+    top = [(iff, c) for iff, c in tests if not any(a["k"] in ("If", "Match", "Arm", "Closure", "For", "While") for a in par.ancestors(iff))
+           and (iff["sp"][0], iff["sp"][1]) < first_key]
+    a0 = S.norm_ws(run.facts.text(TL, top[0][1]["args"][0]["sp"])) if top and top[0][1]["args"] else ""
+    ok = bool(top) and a0 in ("&env.package", "env.package.as_str()", "&env.package.clone()")
+    run.ob("R16.13", "define_inherent_impl|the locality test guards every form of impl", ok, site(TL, (tests or [(d.node, None)])[0][0]["sp"]),
+           f"{len(tests)} rejecting locality test(s), {len(top)} of them unconditional and before the key; package argument `{a0}`",
+           witness="package Main: impl[T] D::Box[T] { fn size(self: D::Box[T]) -> int32 { 4242 } } is accepted; D's own call of size() runs Main's body "
+                   "(which package wins is decided by link order)")
+
+
 def run(run, model):
     mir = Mir(run.facts)
     run.try_rule(r16_1, model, mir)
@@ -550,6 +576,10 @@ def run(run, model):
     run.try_rule(r16_10, model)
     run.try_rule(r16_11, model)
     run.try_rule(r16_12, model)
+    run.try_rule(r16_13, model)
+    # a stale dependant names items its dependency no longer exports: the pinned-hash comparison is how link reports that (shared with C15 R15.4)
+    from rules import c15 as _c15
+    run.try_rule(_c15.r15_4, model)
     from rules import c04
     run.rule("R16.6", "a package missing from the link inputs is reported, not skipped (shared with C04 R04.8)")
     run.try_rule(c04.r04_8, model)
